@@ -783,6 +783,7 @@ src/git/repository.rs::diff_added_lines#0 diff parsed
 src/git/repository.rs::diff_changed_files#0 diff parsed
 src/git/repository.rs::diff_workdir_added_lines#0 diff parsed
 src/git/repository.rs::diff_workdir_added_lines_with_insertions#0 diff parsed
+src/git/repository.rs::diff_workdir_hunks#0 diff parsed
 src/git/repository.rs::fetch_branch#0 fetch unparsed
 src/git/repository.rs::find_repository#0 rev-parse parsed
 src/git/repository.rs::find_repository#1 rev-parse parsed
